@@ -49,10 +49,7 @@ impl<'a> SessionData<'a> {
                     debug!("Ignoring stale PUBACK for packet id {=u16}", ack.packet_id);
                     return Ok(false);
                 }
-                runtime.send_quota = runtime
-                    .send_quota
-                    .saturating_add(1)
-                    .min(runtime.max_send_quota);
+                runtime.release_send_quota(self.outbound.inflight_publishes());
                 debug!(
                     "Processed PUBACK packet_id={=u16} send_quota={=u16}",
                     ack.packet_id, runtime.send_quota
@@ -65,10 +62,7 @@ impl<'a> SessionData<'a> {
                         // A successful PUBREC keeps the exchange open until PUBCOMP, so only a
                         // failing PUBREC gives its slot of the broker's Receive Maximum back.
                         if !rec.reason.code().success() {
-                            runtime.send_quota = runtime
-                                .send_quota
-                                .saturating_add(1)
-                                .min(runtime.max_send_quota);
+                            runtime.release_send_quota(self.outbound.inflight_publishes());
                         }
                         debug!(
                             "Processed PUBREC packet_id={=u16} send_quota={=u16}",
@@ -108,10 +102,7 @@ impl<'a> SessionData<'a> {
                     );
                     return Ok(false);
                 }
-                runtime.send_quota = runtime
-                    .send_quota
-                    .saturating_add(1)
-                    .min(runtime.max_send_quota);
+                runtime.release_send_quota(self.outbound.inflight_publishes());
                 debug!(
                     "Processed PUBCOMP packet_id={=u16} send_quota={=u16}",
                     comp.packet_id, runtime.send_quota
